@@ -42,28 +42,49 @@ def docutils_accepts(text: str) -> bool:
     return not w.getvalue()
 
 
-def choose_cases(ck: core.Check, payloads: List[Dict[str, Any]], rnd: random.Random, n_quick: int = 14) -> Tuple[List[Dict[str, Any]], int]:
+FRAGMENT_NAMES = [
+    "double quote", "three double quotes", "single quote", "backslash", "block comment end", "block comment start", "line comment start",
+    "XML comment start", "XML comment end", "end tag </summary>", "ampersand", "less than", "greater than", "backtick", "template substitution start",
+    "paragraph break", "star", "space", "word", "block comment end inside an inline literal", "Java Unicode escape of a line feed",
+    "Java Unicode escape of a star, then slash", "line feed inside a paragraph", "LINE SEPARATOR U+2028", "opening brace",
+]
+PATTERN_NAMES = [
+    "double quote", "single quote", "backslash", "block comment end", "block comment start", "line comment start", "XML comment start", "XML comment end",
+    "ampersand", "less than", "greater than", "backtick", "template substitution start", "line feed", "CDATA end", "LINE SEPARATOR U+2028", "NUL", "space",
+]
+HARMLESS = "W zq"
+
+
+def choose_cases(ck: core.Check, gen: Dict[str, Any], rnd: random.Random, n_quick: int = 14) -> Tuple[List[Dict[str, Any]], int]:
+    """Spend the budget: every single fragment at the end of the text, a seeded sample of the rest; every pattern (quick: a sample)."""
     cands = []
-    for p in payloads:
+    for p in gen["payloads"]:
         rst = core.from_cps(p["rst"])
         if docutils_accepts(rst):
-            cands.append({"ids": p["ids"], "layout": p["layout"], "rst": rst, "plain": core.from_cps(p["plain"])})
+            cands.append({"kind": "text", "ids": p["ids"], "layout": p["layout"], "rst": rst, "plain": core.from_cps(p["plain"]), "pattern": None, "twin_id": 0})
     cands.sort(key=lambda c: (len(c["ids"]), c["ids"], c["layout"]))
     singles_tail = [c for c in cands if len(c["ids"]) == 1 and c["layout"] == "tail"]
     singles_other = [c for c in cands if len(c["ids"]) == 1 and c["layout"] != "tail"]
     longer = [c for c in cands if len(c["ids"]) > 1]
     rnd.shuffle(singles_other)
     rnd.shuffle(longer)
+    pats = [{"kind": "pattern", "ids": p["ids"], "layout": "pattern", "rst": HARMLESS, "plain": HARMLESS, "pattern": core.from_cps(p["re"]), "twin_id": 1} for p in gen["patterns"]]
+    pats.sort(key=lambda c: (len(c["ids"]), c["ids"], c["pattern"]))
+    p_single_tail = [c for c in pats if len(c["ids"]) == 1 and c["pattern"].startswith("z")]
+    p_rest = [c for c in pats if c not in p_single_tail]
+    rnd.shuffle(p_rest)
     if ck.quick:
-        chosen = singles_tail + singles_other[:6] + longer[:n_quick]
+        chosen = singles_tail + singles_other[:4] + longer[:n_quick] + p_single_tail + p_rest[:2]
     else:
-        chosen = singles_tail + singles_other + longer[:420]
+        chosen = singles_tail + singles_other + longer[:380] + p_single_tail + p_rest[:80]
     for i, c in enumerate(chosen):
         c["id"] = i + 1
-        body = c["plain"]
-        c["pattern"] = body if PLAIN_REGEX.match(body) else None
-        c["twin_id"] = 1 if c["pattern"] is not None else 0
     return chosen, len(cands)
+
+
+def fragment_names(c: Dict[str, Any]) -> List[str]:
+    names = PATTERN_NAMES if c["kind"] == "pattern" else FRAGMENT_NAMES
+    return [("pattern: " if c["kind"] == "pattern" else "") + names[i - 1] for i in c["ids"]]
 
 
 def java_parse(ck: core.Check, dumped: List[Dict[str, Any]]) -> List[Dict[str, Any]]:
@@ -113,18 +134,27 @@ def main() -> int:
 def run(ck: core.Check, model_check: bool = True, n_quick: int = 14) -> int:
     rnd = random.Random(ck.seed)
     suffix = "" if ck.quick else "_thorough"
+    replay = os.environ.get("VERIF_REPLAY")
     # M
-    if model_check:
+    if model_check and not replay:
       ck.model_check("MC_Lexers", "MC_Lexers.cfg", "lexer machines: totality, mode discipline, error absorbing, skeleton lemmas", workers=8, jvm=JVM, timeout=900)
       ck.model_check("MC_XmlLex", "MC_XmlLex%s.cfg" % suffix, "XML machine: total; escaped text is always well-formed, lone markup never", workers=8, jvm=JVM, timeout=900)
     # G
     pay_p = ck.work / "payloads.json"
     ck.tlc("LexPayloadGen", "LexPayloadGen%s.cfg" % suffix, what="G: payloads (fragment sequences x layouts)", env={"VERIF_OUT": str(pay_p)}, count=False, jvm=JVM, timeout=600)
-    payloads = core.read_json(pay_p)
-    cases, n_accepted = choose_cases(ck, payloads, rnd, n_quick)
+    gen = core.read_json(pay_p)
+    payloads = gen["payloads"]
+    if replay:
+        rc = core.read_json(pathlib.Path(replay))["case"]
+        cases, n_accepted = [], 0
+        if "payload_rst" in rc:
+            is_pat = rc.get("pattern") is not None
+            cases = [{"id": 1, "kind": "pattern" if is_pat else "text", "ids": [], "layout": rc.get("layout", ""), "rst": rc["payload_rst"], "plain": rc.get("payload_plain", rc["payload_rst"]), "pattern": rc.get("pattern"), "twin_id": 1 if is_pat else 0}]
+    else:
+        cases, n_accepted = choose_cases(ck, gen, rnd, n_quick)
     by_id = {c["id"]: c for c in cases}
     # the harmless twins: one per structure of the meta-model (without / with the pattern function)
-    twin_list = [{"id": 0, "twin_id": 0, "rst": "W zq", "plain": "W zq", "pattern": None}, {"id": -1, "twin_id": 1, "rst": "W zq", "plain": "W zq", "pattern": "W zq"}]
+    twin_list = [{"id": 0, "twin_id": 0, "rst": HARMLESS, "plain": HARMLESS, "pattern": None}, {"id": -1, "twin_id": 1, "rst": HARMLESS, "plain": HARMLESS, "pattern": core.from_cps(gen["twin_pattern"])}]
     twin = twin_list[0]
     # R
     in_p, obs_p = ck.work / "in.json", ck.work / "obs.json"
@@ -157,8 +187,8 @@ def run(ck: core.Check, model_check: bool = True, n_quick: int = 14) -> int:
     core.write_json(files_p, {"k": K, "twins": [{"lang": t["lang"], "text": t["text"]} for t in twins], "hunks": [{"twin": h["twin"], "tb": h["tb"], "te": h["te"], "text": h["text"]} for h in hunks]})
     res = ck.tlc("LexFileTrace", what="V: twin files and variant hunks through the lexer machines", env={"VERIF_FILES": str(files_p)}, cont=True, workers=8, jvm=JVM, timeout=2400, extra=["-difftrace"])
     parse_ok = {(p["case"], p["target"], p["path"]): p["ok"] for p in parses}
+    found: List[Dict[str, Any]] = []  # violations before attribution
     seen = set()
-    n_hunk_viol = 0
     for v in res.violations:
         f = int(re.match(r"\s*(\d+)", res.var_of(v, "f") or "0").group(1))
         hk = int(re.match(r"\s*(\d+)", res.var_of(v, "hk") or "0").group(1))
@@ -171,15 +201,13 @@ def run(ck: core.Check, model_check: bool = True, n_quick: int = 14) -> int:
             why = rec_field(st, "why") or ("ends in mode " + rec_field(st, "m"))
             if parse_ok.get((-t.get("twin_id", 0), t["target"], t["path"])) is True:
                 raise core.MachineryFailure("the lexer machine rejects %s/%s (%s) which the real parser accepts" % (t["target"], t["path"], why))
-            key = {"clause": "Inv_LexicallyComplete", "target": t["target"], "envelope": "", "effect": why}
+            key = {"clause": "Inv_LexicallyComplete", "target": t["target"], "trigger": "harmless text", "effect": why}
             ck.violation(key, "Inv_LexicallyComplete", {"target": t["target"], "path": t["path"], "payload": "harmless twin"}, {"lexer": why}, detail="%s/%s: %s" % (t["target"], t["path"], why))
         else:
             if ("hunk", hk) in seen:
                 continue
             seen.add(("hunk", hk))
-            n_hunk_viol += 1
             h = hunks[hk - 1]
-            c = by_id[h["case"]]
             env = (res.var_of(v, "env") or "").strip().strip('"')
             if rec_field(stv, "m") == "err":
                 effect = "lexical error: " + rec_field(stv, "why")
@@ -190,21 +218,13 @@ def run(ck: core.Check, model_check: bool = True, n_quick: int = 14) -> int:
             else:
                 a, b = rec_fields(st), rec_fields(stv)
                 effect = "other machine state: " + ",".join(sorted(k for k in a if a.get(k) != b.get(k)))
-            key = {"clause": "Inv_SkeletonIndependentOfPayload", "target": h["target"], "envelope": env, "effect": effect}
-            ck.violation(
-                key,
-                "Inv_SkeletonIndependentOfPayload",
-                {"target": h["target"], "path": h["path"], "payload_rst": c["rst"], "payload_plain": c["plain"], "fragments": c["ids"], "layout": c["layout"]},
-                {"envelope": env, "effect": effect, "variant_text": core_units_to_text(h["text"])[-400:]},
-                detail="%s %s payload %s: %s in %s" % (h["target"], h["path"], json.dumps(c["rst"]), effect, env),
-            )
+            found.append({"clause": "Inv_SkeletonIndependentOfPayload", "case": h["case"], "target": h["target"], "path": h["path"], "envelope": env, "effect": effect, "text": core_units_to_text(h["text"])[-400:]})
     # V 2: C# documentation comments are XML
     docs = {}
     for d in obs["csdocs"]:
         docs.setdefault(tuple(d["text"]), d)
     doc_list = [{"text": list(t), "real": expat_says(list(t))} for t in docs]
     doc_meta = list(docs.values())
-    n_doc_bad = 0
     if doc_list:
         dp = ck.work / "docs.json"
         core.write_json(dp, doc_list)
@@ -215,21 +235,49 @@ def run(ck: core.Check, model_check: bool = True, n_quick: int = 14) -> int:
             text = core.from_cps(doc_list[i - 1]["text"])
             if v["invariant"] == "Inv_SpecAgreesWithExpat":
                 raise core.MachineryFailure("XmlLex disagrees with expat (%s) on %r" % (doc_list[i - 1]["real"], text[:300]))
-            n_doc_bad += 1
-            c = by_id.get(d["case"], twin)
-            ck.violation({"clause": v["invariant"], "target": "csharp", "envelope": "xml", "effect": "not well-formed"}, v["invariant"], {"target": "csharp", "path": d["path"], "payload_rst": c["rst"]}, {"doc": text[:400]}, detail="csharp %s payload %s: documentation comment is not well-formed XML" % (d["path"], json.dumps(c["rst"])))
+            found.append({"clause": "Inv_DocCommentIsWellFormedXml", "case": d["case"], "target": "csharp", "path": d["path"], "envelope": "xml", "effect": "not well-formed", "text": text[:400]})
     # V 3: verdicts of the real parsers
     if parses:
         pp = ck.work / "parses.json"
         core.write_json(pp, [{"parser": p["parser"], "ok": bool(p["ok"])} for p in parses])
         r3 = ck.tlc("ParseObsTrace", what="V: real parsers accept every generated file", env={"VERIF_PARSES": str(pp)}, cont=True, workers=4, jvm=JVM, timeout=900)
+        twin_msgs = {(p["case"], p["target"], p["path"]): re.sub(r"\d+", "N", p["msg"])[:80] for p in parses if p["case"] <= 0 and not p["ok"]}
         for v in r3.violations:
             i = int(re.match(r"\s*(\d+)", r3.var_of(v, "i") or "0").group(1))
             p = parses[i - 1]
-            c = by_id.get(p["case"], twin)
             msg = re.sub(r"\d+", "N", p["msg"])[:80]
-            key = {"clause": "Inv_RealParserAccepts", "target": p["target"], "envelope": p["parser"], "effect": msg if p["case"] <= 0 else "payload"}
-            ck.violation(key, "Inv_RealParserAccepts", {"target": p["target"], "path": p["path"], "payload_rst": c["rst"], "payload_plain": c["plain"]}, {"parser": p["parser"], "message": p["msg"]}, detail="%s %s payload %s: %s says %s" % (p["target"], p["path"], json.dumps(c["rst"]), p["parser"], p["msg"][:160]))
+            if p["case"] <= 0:
+                key = {"clause": "Inv_RealParserAccepts", "target": p["target"], "trigger": "harmless text", "effect": "%s: %s" % (p["parser"], msg)}
+                ck.violation(key, "Inv_RealParserAccepts", {"target": p["target"], "path": p["path"], "payload": "harmless twin"}, {"parser": p["parser"], "message": p["msg"]}, detail="%s %s (harmless twin): %s says %s" % (p["target"], p["path"], p["parser"], p["msg"][:160]))
+                continue
+            c = by_id[p["case"]]
+            tmsg = twin_msgs.get((-c["twin_id"], p["target"], p["path"]))
+            if tmsg is not None and tmsg == msg:
+                # the harmless twin of this file fails in the same way: not caused by the payload
+                key = {"clause": "Inv_RealParserAccepts", "target": p["target"], "trigger": "harmless text", "effect": "%s: %s" % (p["parser"], msg)}
+                ck.violation(key, "Inv_RealParserAccepts", {"target": p["target"], "path": p["path"], "payload_rst": c["rst"]}, {"parser": p["parser"], "message": p["msg"]}, detail="%s %s: %s says %s (as for the harmless twin)" % (p["target"], p["path"], p["parser"], p["msg"][:160]))
+                continue
+            found.append({"clause": "Inv_RealParserAccepts", "case": p["case"], "target": p["target"], "path": p["path"], "envelope": p["parser"], "effect": p["msg"][:160], "text": ""})
+    # attribution: a violating payload is put down to the first of its fragments that violates the same clause for the
+    # same target on its own (the single-fragment cases are part of every run); otherwise to the combination
+    single = set()
+    for x in found:
+        c = by_id[x["case"]]
+        if len(c["ids"]) == 1:
+            single.add((x["clause"], x["target"], c["kind"], c["ids"][0]))
+    for x in found:
+        c = by_id[x["case"]]
+        names = fragment_names(c)
+        hit = [n for i, n in zip(c["ids"], names) if (x["clause"], x["target"], c["kind"], i) in single]
+        trigger = hit[0] if hit else "combination: " + " + ".join(names)
+        key = {"clause": x["clause"], "target": x["target"], "trigger": trigger}
+        ck.violation(
+            key,
+            x["clause"],
+            {"target": x["target"], "path": x["path"], "payload_rst": c["rst"], "payload_plain": c["plain"], "pattern": c["pattern"], "fragments": names, "layout": c["layout"]},
+            {"envelope": x["envelope"], "effect": x["effect"], "variant_text": x["text"]},
+            detail="%s %s payload %s%s: %s [%s]" % (x["target"], x["path"], json.dumps(c["rst"]), (" pattern " + json.dumps(c["pattern"])) if c["pattern"] else "", x["effect"], x["envelope"]),
+        )
     # evidence
     hostile_units = sum(len(h["text"]) for h in hunks)
     nontrivial_cases = len({h["case"] for h in hunks})
@@ -252,14 +300,14 @@ def run(ck: core.Check, model_check: bool = True, n_quick: int = 14) -> int:
     ck.cov["cs_doc_comments"] = len(doc_list)
     ck.cov["real_parser_verdicts"] = dict(collections.Counter(p["parser"] for p in parses))
     ck.cov["exhaustive"] = False
-    ck.cov["samples"] = [{"payload_rst": c["rst"], "payload_plain": c["plain"], "layout": c["layout"]} for c in (cases[0], cases[len(cases) // 2], cases[-1])]
+    ck.cov["samples"] = [{"payload_rst": c["rst"], "payload_plain": c["plain"], "pattern": c["pattern"], "layout": c["layout"]} for c in ([cases[0], cases[len(cases) // 2], cases[-1]] if cases else [])]
     ck.assumptions += [
         "TLC, SANY, CommunityModules Json",
         "Lexers.tla machines (validated against CPython, g++, javac, node by C19's S phase; C#, Go from the language references only)",
         "no parser exists here for C#, Go, TypeScript and C++ is not compiled: for those only the lexical clauses are decided",
         "a variant file equals its twin outside the hunks (checked by the runner: twin with hunks substituted == variant)",
     ]
-    if not hunks or nontrivial_cases < 2:
+    if not replay and (not hunks or nontrivial_cases < 2):
         raise core.MachineryFailure("vacuous run: no payload reached a generated file")
     return ck.finish()
 
